@@ -5,6 +5,7 @@ import (
 	"encoding/json"
 	"fmt"
 	"io"
+	"math/big"
 	"math/rand"
 	"sort"
 	"strings"
@@ -326,16 +327,33 @@ func crashPlan(c *ctx, r *rand.Rand, prefix string, depth int) string {
 			k++
 		}
 		// state at k to see which files are pending
-		pendingFiles, nondurable := pendingAt(run.cfs, k)
+		pendingFiles, nondurable, scrubDurable := pendingAt(run.cfs, k)
 		var kf, kb []string
+		var torn []string
 		for _, n := range nondurable {
 			if r.Intn(2) == 0 {
 				kf = append(kf, n)
 			}
 		}
+		// durable only through the fsync of a recovery scrub: the model does not see that
+		// fsync, so the survival of the file is stated explicitly
+		kf = append(kf, scrubDurable...)
 		for _, n := range pendingFiles {
-			if r.Intn(2) == 0 {
+			switch r.Intn(3) {
+			case 0:
 				kb = append(kb, n)
+			case 1: // torn: a random strict subset of the 8-byte chunks of the file image
+				nch := 2048
+				m := new(big.Int)
+				for ch := 0; ch < nch; ch++ {
+					if r.Intn(2) == 0 {
+						m.SetBit(m, ch, 1)
+					}
+				}
+				m.SetBit(m, r.Intn(64), 0)
+				var b, id uint64
+				fmt.Sscanf(n, "%020d-%016x.wal", &b, &id)
+				torn = append(torn, fmt.Sprintf("%x %x %s", b, id, m.Text(16)))
 			}
 		}
 		tok := func(ns []string) string {
@@ -347,7 +365,11 @@ func crashPlan(c *ctx, r *rand.Rand, prefix string, depth int) string {
 			}
 			return s
 		}
-		line += fmt.Sprintf(" C %x %s %s O A P Y T", k, tok(kf), tok(kb))
+		tornTok := fmt.Sprintf("%x", len(torn))
+		if len(torn) > 0 {
+			tornTok += " " + strings.Join(torn, " ")
+		}
+		line += fmt.Sprintf(" C %x %s %s %s O A P Y T", k, tok(kf), tok(kb), tornTok)
 		if d == depth-1 {
 			// usability probe (C03): append at last+1, truncate, stable write, clean reopen
 			line += " " + probeOps(c, r, line)
@@ -413,8 +435,8 @@ func allNames(c *crashFS) map[string]bool {
 
 // pendingAt: files with un-synced writes and files whose directory entry is not
 // durable after the first k counted actions
-func pendingAt(c *crashFS, k int) (pending, nondurable []string) {
-	type st struct{ pend, dur, exists bool }
+func pendingAt(c *crashFS, k int) (pending, nondurable, scrubDurable []string) {
+	type st struct{ pend, dur, exists, scrubOnly bool }
 	m := map[string]*st{}
 	var order []string
 	n := c.baseCount
@@ -446,6 +468,11 @@ func pendingAt(c *crashFS, k int) (pending, nondurable []string) {
 		case actSync:
 			if s := m[a.name]; s != nil {
 				s.pend = false
+				if !s.dur {
+					s.scrubOnly = a.scrub
+				} else if !a.scrub {
+					s.scrubOnly = false
+				}
 				s.dur = true
 			}
 		case actDelete:
@@ -466,6 +493,8 @@ func pendingAt(c *crashFS, k int) (pending, nondurable []string) {
 		}
 		if !s.dur {
 			nondurable = append(nondurable, name)
+		} else if s.scrubOnly {
+			scrubDurable = append(scrubDurable, name)
 		}
 	}
 	return
@@ -501,3 +530,32 @@ func genFaults(c *ctx, emit func(string)) {
 		emit(strings.Join(g.ops, " ") + " " + probeOps(c, r, strings.Join(g.ops, " ")))
 	}
 }
+
+// codecid: codec identifiers (C12): reserved ids are rejected by Open, a
+// directory written with one id refuses another, and a WAL created with a
+// custom codec reopens with that same codec.
+func genCodecID(c *ctx, emit func(string)) {
+	r := rand.New(rand.NewSource(c.seed))
+	ids := []uint64{1, 0, 2, 65535, 65536, 65537, 1 << 32, 1<<64 - 1}
+	for i := 0; i < c.n; i++ {
+		id := ids[r.Intn(len(ids))]
+		if r.Intn(3) == 0 {
+			id = r.Uint64()
+		}
+		mode := "m"
+		if i%4 == 3 {
+			mode = "r"
+		}
+		g := newWgen(r, mode)
+		g.ops = []string{fmt.Sprintf("wal %x %x %s", g.seg, id, mode), "O"}
+		for j := 0; j < 2+r.Intn(5); j++ {
+			g.store()
+		}
+		g.ops = append(g.ops, "A", "X", "O", "A") // same codec: must reopen with identical contents
+		other := ids[r.Intn(len(ids))]
+		g.ops = append(g.ops, "X", fmt.Sprintf("Q %x", other), "O", "A", "X", fmt.Sprintf("Q %x", id), "O", "A", "X")
+		emit(strings.Join(g.ops, " "))
+	}
+}
+
+func init() { streams["codecid"] = &stream{gen: genCodecID, exec: execWal} }
